@@ -36,6 +36,10 @@ vars == <<streak, l, scen, tab, chan, cur, owedStop, down, sched, fu, lack, veri
 Ev == Rec[l]
 T  == Ev.t
 V(tag, cond, extra) == IF cond THEN {} ELSE {<<tag, l, scen, extra>>}
+
+(* at most 24 recorded failures per clause and kind: the set is part of the state, its size must stay bounded *)
+KindOfV(v) == IF v[4] # <<>> THEN v[4][1] ELSE ""
+Cap(old, new) == old \cup {v \in new : Cardinality({w \in old : w[1] = v[1] /\ KindOfV(w) = KindOfV(v)}) < 24}
 Dom(f) == DOMAIN f
 Put(f, k, v) == [x \in Dom(f) \cup {k} |-> IF x = k THEN v ELSE f[x]]
 Del(f, ks) == [x \in Dom(f) \ ks |-> f[x]]
@@ -586,7 +590,7 @@ Iter ==
        /\ verifs' = {v \in s1.verifs : T < v.at + 1001}
        /\ lastT' = T
        /\ arrs' = SelectSeq(arrs \o NewArrivals(inbox), LAMBDA x : x > T)
-       /\ viol' = viol \cup SpinV \cup s2.v \cup s3.v
+       /\ viol' = Cap(viol, SpinV \cup s2.v \cup s3.v
                     \cup (IF Ev.alive /\ ~s1.down THEN ParkInvariants(s2.chan, s1.tab) \cup SchedOwed(s1.sched, s3.used)
                                                        \cup MarksOwed(s1.tab, s3.tab, s2.chan)
                                                        \cup AskOwed(LackStep(lack, s3.tab, s2.chan), s3.fu)
@@ -595,7 +599,7 @@ Iter ==
                           ELSE {})
                     \cup KnownAnswerChecks(s1.tab) \cup Everywhere(s3.used) \cup MetricsChecks(s1.tab, s2.chan)
                     \cup QuestionLabels(s1.tab) \cup CacheOnlyQuiet(s2.chan)
-                    \cup V("C13.stopped-once", s2.owedStop = {}, <<"SearchStopped owed but not delivered in the iteration of the stop", s2.owedStop>>)
+                    \cup V("C13.stopped-once", s2.owedStop = {}, <<"SearchStopped owed but not delivered in the iteration of the stop", s2.owedStop>>))
        /\ hits' = hits \cup {"ev." \o Ev.events[i].k : i \in 1..Len(Ev.events)} \cup s3.h
                        \cup (IF \E x \in Dom(s2.chan) : s2.chan[x].resolved # {} THEN {"C03.resolved"} ELSE {})
                        \cup (IF \E i \in Qpk : Len(Sent[i].m.an) > 0 THEN {"C10.known-answer"} ELSE {})
